@@ -1,0 +1,122 @@
+//go:build verif
+
+package btree
+
+import "fmt"
+
+// Hooks for the verification harness (/verif, property C03). Add-only; compiled only with -tags verif.
+
+// VerifError is the error type returned by VerifCheck; Kind is a stable short identifier.
+type VerifError struct {
+	Kind   string
+	Detail string
+}
+
+func (e *VerifError) Error() string { return e.Kind + ": " + e.Detail }
+
+func verifErr(kind, format string, args ...interface{}) error {
+	return &VerifError{Kind: kind, Detail: fmt.Sprintf(format, args...)}
+}
+
+// VerifCheck checks the structural invariants of the tree: every node within its degree bounds
+// (root: at most maxItems, at least one item when it has children), children count 0 or items+1,
+// all leaves at one depth, items strictly increasing in order, Len() equal to the item count.
+func (t *BTree) VerifCheck() error {
+	if t.root == nil {
+		if t.length != 0 {
+			return verifErr("length", "nil root but length %d", t.length)
+		}
+		return nil
+	}
+	count := 0
+	leafDepth := -1
+	var prev Item
+	var walk func(n *node, depth int, isRoot bool) error
+	visit := func(it Item) error {
+		if it == nil {
+			return verifErr("nil", "nil item")
+		}
+		if prev != nil && !prev.Less(it) {
+			return verifErr("order", "item %v not above its predecessor %v", it, prev)
+		}
+		prev = it
+		count++
+		return nil
+	}
+	walk = func(n *node, depth int, isRoot bool) error {
+		if n == nil {
+			return verifErr("nil", "nil child at depth %d", depth)
+		}
+		if depth > 64 {
+			return verifErr("cycle", "path longer than 64 nodes: the structure is not a tree")
+		}
+		if len(n.items) > t.maxItems() {
+			return verifErr("overfull", "node with %d items at depth %d (max %d)", len(n.items), depth, t.maxItems())
+		}
+		if !isRoot && len(n.items) < t.minItems() {
+			return verifErr("underfull", "node with %d items at depth %d (min %d)", len(n.items), depth, t.minItems())
+		}
+		if len(n.children) == 0 {
+			if leafDepth < 0 {
+				leafDepth = depth
+			} else if leafDepth != depth {
+				return verifErr("depth", "leaf at depth %d, another at %d", depth, leafDepth)
+			}
+			for _, it := range n.items {
+				if err := visit(it); err != nil {
+					return err
+				}
+			}
+			return nil
+		}
+		if len(n.children) != len(n.items)+1 {
+			return verifErr("children-count", "%d children for %d items at depth %d", len(n.children), len(n.items), depth)
+		}
+		for i, c := range n.children {
+			if err := walk(c, depth+1, false); err != nil {
+				return err
+			}
+			if i < len(n.items) {
+				if err := visit(n.items[i]); err != nil {
+					return err
+				}
+			}
+		}
+		return nil
+	}
+	if err := walk(t.root, 0, true); err != nil {
+		return err
+	}
+	if count != t.length {
+		return verifErr("length", "Len()=%d but %d items in the tree", t.length, count)
+	}
+	return nil
+}
+
+// VerifOwned reports how many of the nodes reachable from the root carry this tree's
+// copy-on-write context, and how many nodes are reachable in all.
+func (t *BTree) VerifOwned() (owned, total int) {
+	var walk func(n *node, depth int)
+	walk = func(n *node, depth int) {
+		if n == nil || depth > 64 {
+			return
+		}
+		total++
+		if n.cow == t.cow {
+			owned++
+		}
+		for _, c := range n.children {
+			walk(c, depth+1)
+		}
+	}
+	walk(t.root, 0)
+	return
+}
+
+// VerifFreeListLen reports the number of nodes parked in the tree's free list.
+func (t *BTree) VerifFreeListLen() int {
+	f := t.cow.freelist
+	f.mu.Lock()
+	defer f.mu.Unlock()
+	return len(f.freelist)
+}
